@@ -28,6 +28,7 @@ type tmpl struct {
 	// for clean templates: paths (child names from the root of module m) that must exist
 	// afterwards, and the default values that leaves must have
 	present  [][]string
+	absent   [][]string // paths that must not exist afterwards
 	defaults map[string]string
 	// onlyFor: the template runs under this property only (it carries a recorded finding of
 	// that property)
@@ -104,6 +105,10 @@ var templates = []tmpl{
 	{name: "augment-path-names-the-implicit-case-of-a-shorthand-member", augment: true, clean: true, onlyFor: "C07", present: [][]string{{"c", "ch", "x", "y"}, {"c", "ch", "x", "x", "l"}}, files: []string{
 		`module m { ` + hdr("m") + ` container c { choice ch { container x { leaf l { type string; } } } %PAD } }`,
 		`module b { ` + hdr("b") + ` import m { prefix m; } augment /m:c/m:ch/m:x { leaf y { type string; } } }`}},
+	{name: "augment-in-a-submodule-revision-that-nothing-includes", augment: true, clean: true, present: [][]string{{"c", "new"}, {"c", "own"}, {"snew"}}, absent: [][]string{{"c", "old"}, {"sold"}}, files: []string{
+		`module m { ` + hdr("m") + ` include s; container c { leaf own { type string; } %PAD } }`,
+		`submodule s { belongs-to m { prefix m; } revision 2019-01-01; augment "/m:c" { leaf old { type string; } } leaf sold { type string; } }`,
+		`submodule s { belongs-to m { prefix m; } revision 2020-01-01; augment "/m:c" { leaf new { type string; } } leaf snew { type string; } }`}},
 	{name: "augment-path-leaves-out-an-explicit-case", augment: true, files: []string{
 		`module m { ` + hdr("m") + ` container top { choice ch { case c1 { container cont { leaf in { type string; } } } case c2 { leaf other { type string; } } } %PAD } rpc r { input { choice how { case by-name { container sel { leaf n { type string; } } } } } } }`,
 		`module b { ` + hdr("b") + ` import m { prefix m; } augment %NOCASE { leaf bad { type string; } } }`}},
@@ -301,7 +306,7 @@ func Run(j *job.Job, s *job.Sink) {
 					s.Violation(c, j.CaseID(c), j.Property+".latefault", "clean-result-with-improper-tree", t.name+": "+improper, cs, map[string]any{"template": t.name})
 					return
 				}
-				if t.present != nil || t.defaults != nil {
+				if t.present != nil || t.defaults != nil || t.absent != nil {
 					mname := "m"
 					if twoRevs {
 						mname = "m@2019-01-01"
@@ -319,6 +324,12 @@ func Run(j *job.Job, s *job.Sink) {
 					for _, pth := range t.present {
 						if at(pth) == nil {
 							s.Violation(c, j.CaseID(c), j.Property+".latefault", "late-step-not-applied", fmt.Sprintf("%s: /%s is not in the tree of module m", t.name, strings.Join(pth, "/")), cs, map[string]any{"template": t.name})
+							return
+						}
+					}
+					for _, pth := range t.absent {
+						if at(pth) != nil {
+							s.Violation(c, j.CaseID(c), j.Property+".latefault", "late-step-applied-wrongly", fmt.Sprintf("%s: /%s is in the tree of module m", t.name, strings.Join(pth, "/")), cs, map[string]any{"template": t.name})
 							return
 						}
 					}
